@@ -31,7 +31,7 @@ def counts_for(rng, m, tier):
         for d in (-1, 0, 1):
             cs.add(b + d)
     cs.add(2 ** 64 - 1)
-    n = 150 if tier == "quick" else 1000
+    n = 150 if tier == "quick" else 6000
     for _ in range(n):
         cs.add(rng.getrandbits(rng.choice([8, 16, 24, 31, 32, 33, 48, 64])))
     return sorted(cs)
@@ -61,7 +61,7 @@ def make_cases(seed, tier):
     for m in gen.METHODS + [None]:
         fm = m or "yescrypt"
         rng = rt.rng_for(seed, PID, m)
-        pats = RB_PATTERNS + [bytes(rng.getrandbits(8) for _ in range(64)) for _ in range(1 if tier == "quick" else 4)]
+        pats = RB_PATTERNS + [bytes(rng.getrandbits(8) for _ in range(64)) for _ in range(1 if tier == "quick" else 8)]
         for c in counts_for(rng, fm, tier):
             for pi, rb in enumerate(pats if tier == "thorough" or c < 50 else pats[:2] + pats[-1:]):
                 cases.append((m, fm, c, rb))
